@@ -29,6 +29,30 @@ Definition dz_years_since (a base : DateTime.dtz) : R (option Z) :=
   let* years := sub_i32 years (if earlier_time then 1 else 0) in
   Val (if 0 <=? years then Some (as_u32 years) else None).
 
+(** impl Add<Months> / Sub<Months> for NaiveDateTime: [checked_{add,sub}_months(rhs).expect(..)] *)
+Definition ndt_op_add_months (a : DateTime.ndt) (m : Z) : R DateTime.ndt := unwrap_r (DateTime.ndt_checked_add_months a m).
+Definition ndt_op_sub_months (a : DateTime.ndt) (m : Z) : R DateTime.ndt := unwrap_r (DateTime.ndt_checked_sub_months a m).
+(** impl Datelike for NaiveDateTime delegates every accessor to [self.date]; the provided methods
+    (quarter, year_ce, num_days_in_month: src/traits.rs) read those accessors *)
+Definition ndt_prov (a : DateTime.ndt) : R val :=
+  let d := DateTime.nd_date a in
+  let* q := d_quarter d in
+  let* yce := d_year_ce d in
+  let* dim := d_num_days_in_month d in
+  let* m := d_month d in let* m0 := sub_u32 m 1 in
+  let* dd := d_day d in let* d0 := sub_u32 dd 1 in
+  let* o0 := sub_u32 (d_ordinal d) 1 in
+  let* wd := d_weekday d in
+  Val (VTup [VInt q; val_of_bool (fst yce); VInt (snd yce); VInt dim; VInt (d_year d); VInt m; VInt m0;
+             VInt dd; VInt d0; VInt (d_ordinal d); VInt o0; VInt wd]).
+(** impl PartialEq for NaiveWeek: [self.first_day() == other.first_day()] ([ne] is the provided [!eq]);
+    impl Hash: [self.first_day().hash(state)] — the observable is equality of the hashed keys *)
+Definition week_eq_obs (w1 w2 : nweek) : R val :=
+  let* a := week_first_day w1 in let* b := week_first_day w2 in
+  let* a' := week_first_day w1 in let* b' := week_first_day w2 in
+  let* ha := week_first_day w1 in let* hb := week_first_day w2 in
+  Val (VTup [val_of_bool (a =? b); val_of_bool (negb (a' =? b')); val_of_bool (ha =? hb)]).
+
 (** argument decoders *)
 Definition arg_u8 (v : val) : option Z := match v with VInt z => if in_u8 z then Some z else None | _ => None end.
 Definition arg_wd (v : val) : option Z :=
@@ -111,5 +135,26 @@ Definition run (op : bytes) (args : list val) : val :=
         | Some f => match DateTime.dec_ndt a, arg_field f b with
                     | Some d, Some x => val_of_R vo_ndt (DateTime.ndt_with f d x) | _, _ => VBad end
         | None => VBad end
+    | _ => VBad end
+  else if op_is op "d8.ndt.opaddm" then ndt_u32 (fun d n => val_of_R DateTime.enc_ndt (ndt_op_add_months d n))
+  else if op_is op "d8.ndt.opsubm" then ndt_u32 (fun d n => val_of_R DateTime.enc_ndt (ndt_op_sub_months d n))
+  else if op_is op "d8.ndt.prov" then
+    match args with
+    | [a] => match DateTime.dec_ndt a with Some x => val_of_R (fun v => v) (ndt_prov x) | None => VBad end
+    | _ => VBad end
+  else if op_is op "d8.months_u32" then
+    match args with [a] => match arg_u32 a with Some n => VInt n | None => VBad end | _ => VBad end
+  else if op_is op "d8.weq" then
+    match args with
+    | [a; b; c; e] => match DateTime.dec_date a, arg_wd b, DateTime.dec_date c, arg_wd e with
+        | Some d1, Some w1, Some d2, Some w2 => val_of_R (fun v => v) (week_eq_obs (d_week d1 w1) (d_week d2 w2))
+        | _, _, _, _ => VBad end
+    | _ => VBad end
+  (* NaiveDate::from_weekday_of_month (deprecated): expect(..) of the _opt form *)
+  else if op_is op "d8.pnthwd" then
+    match args with
+    | [a; b; c; e] => match arg_i32 a, arg_u32 b, arg_wd c, arg_u8 e with
+        | Some y, Some m, Some w, Some n => val_of_R DateTime.enc_date (unwrap_r (from_weekday_of_month_opt y m w n))
+        | _, _, _, _ => VBad end
     | _ => VBad end
   else VErr B"NOOP".
